@@ -3,6 +3,7 @@ package main
 // govc check: decide one property, write evidence, print VIOLATION / KNOWN-FINDING.
 
 import (
+	"os/exec"
 	"context"
 	"encoding/json"
 	"flag"
@@ -359,6 +360,54 @@ func cmdCheck(args []string) {
 	for _, l := range knownLines {
 		fmt.Println(l)
 	}
+	// thorough tier extras (never counted as discharged obligations):
+	//  - assumption spot-checks: the layer's replay drivers run against the tree under
+	//    check; they exercise the real dependencies (go-cptv writer/reader, juju bucket,
+	//    bufio, yaml) behind the assumed contracts. A hit is a violation with a failing input.
+	//  - the must-fail corpus for this property: every mutant must be reported.
+	var spot []interface{}
+	mutTotal, mutCaught := 0, 0
+	var mutMissed []string
+	if *tier == "thorough" && exit == 0 {
+		for _, dn := range propertyDrivers[*prop] {
+			for _, d := range replayDrivers {
+				if d.test != dn {
+					continue
+				}
+				hit, _ := runDriver(*repo, *verif, d, *prop)
+				entry := map[string]interface{}{"driver": d.test, "package": d.pkg, "result": "no violation found"}
+				if hit != "" {
+					entry["result"] = hit
+					if strings.HasPrefix(hit, *prop+" ") {
+						violations++
+						exit = 1
+						rp := filepath.Join(replayDir, *prop+"-spotcheck-"+d.test+".json")
+						data, _ := json.MarshalIndent(map[string]interface{}{"property": *prop, "obligation": "spot-check " + d.test, "failing_input": hit,
+							"replay_driver": map[string]string{"package": d.pkg, "file": filepath.Join(*verif, "replay", "drivers", d.file), "test": d.test}, "replayed": true}, "", " ")
+						os.WriteFile(rp, data, 0o644)
+						fmt.Printf("VIOLATION property=%s replay=%s\n  found by the replay driver %s on the tree under check: %s\n", *prop, rp, d.test, hit)
+					}
+				}
+				spot = append(spot, entry)
+				break
+			}
+		}
+		if os.Getenv("VERIF_OUT_DIR") == "" { // not inside a selftest run
+			out, _ := exec.Command(filepath.Join(*verif, "selftest", "run.sh"), *prop+"-").CombinedOutput()
+			for _, line := range strings.Split(string(out), "\n") {
+				if strings.HasPrefix(line, "caught ") {
+					mutTotal++
+					mutCaught++
+				} else if strings.HasPrefix(line, "MISSED ") || strings.HasPrefix(line, "SELFTEST-ERROR") {
+					mutTotal++
+					mutMissed = append(mutMissed, strings.TrimSpace(line))
+				}
+			}
+			if len(mutMissed) > 0 {
+				fmt.Fprintf(os.Stderr, "warning: must-fail corpus: %d of %d mutants not reported: %v\n", len(mutMissed), mutTotal, mutMissed)
+			}
+		}
+	}
 	sort.Strings(abstracted)
 	abstracted = uniq(abstracted)
 	assumptions := []string{
@@ -389,6 +438,10 @@ func cmdCheck(args []string) {
 			"samples":              samples,
 			"hook_files":           p.hookFileReport(),
 			"known_findings":       knownLines,
+			"spot_checks_testing":  spot,
+			"mutants_total":        mutTotal,
+			"mutants_reported":     mutCaught,
+			"mutants_missed":       mutMissed,
 			"explanation":          "every obligation generated from /repo's current source for the functions whose contracts carry this property tag (ensures tagged with the property, all support clauses, loop invariants, call-site requires, frame and safety conditions) must be unsat; vacuity guards (requires/invariants satisfiable, a return reachable) must not be unsat",
 		},
 	}
